@@ -205,6 +205,9 @@ func init() {
 				GrantTypes: k.Clients[0].GrantTypes, ResponseTypes: allResponseTypes, Scopes: k.Clients[0].Scopes, Audience: k.Clients[0].Audience, ResponseModes: []string{"query", "fragment", "form_post"}},
 			ClientSpec{ID: "oidc-jwt", OIDC: true, AuthMethod: "private_key_jwt", KeyName: "rsa2", AuthAlg: "RS256", RedirectURIs: []string{"https://app-j.sim/cb"},
 				GrantTypes: k.Clients[0].GrantTypes, ResponseTypes: allResponseTypes, Scopes: k.Clients[0].Scopes, Audience: k.Clients[0].Audience, ResponseModes: []string{"query", "fragment", "form_post"}})
+		if t.Chance(30) {
+			enableCustomMode(t, &k)
+		}
 		nc := len(k.Clients)
 		var steps []Step
 		n := t.Range(10, 36)
@@ -218,7 +221,7 @@ func init() {
 					s.P["scope"] = "openid " + s.P["scope"]
 				}
 				if t.Chance(40) {
-					s.P["mode"] = t.Pick([]string{"query", "fragment", "form_post"})
+					s.P["mode"] = t.Pick([]string{"query", "fragment", "form_post", SimResponseMode})
 				}
 				if t.Chance(40) {
 					s.P["pkce"] = "S256"
@@ -248,7 +251,7 @@ func init() {
 				}
 			case 6:
 				if t.Chance(55) {
-					s = st("par_push", t.Intn(nc), 0, "scope", pickScopes(t, 30, 50), "mode", t.Pick([]string{"", "form_post", "fragment"}))
+					s = st("par_push", t.Intn(nc), 0, "scope", pickScopes(t, 30, 50), "mode", t.Pick([]string{"", "form_post", "fragment", SimResponseMode}))
 					if t.Chance(30) {
 						s.P["pkce"] = "S256"
 					}
@@ -271,7 +274,7 @@ func init() {
 				}[ep]
 				s = Step{Op: "hostile", C: t.Intn(nc), V: ep, D: int64(t.Intn(len(hostile))), A: t.Pick([]string{"", "", "", "bad_secret", "none"}), P: map[string]string{"what": t.Pick(what)}}
 				if ep == "authorize" && t.Chance(50) {
-					s.P["mode"] = t.Pick([]string{"query", "fragment", "form_post"})
+					s.P["mode"] = t.Pick([]string{"query", "fragment", "form_post", SimResponseMode})
 				}
 			case 10:
 				s = advance(t)
